@@ -8,7 +8,7 @@ ROOT = os.path.dirname(os.path.dirname(os.path.abspath(__file__)))
 CLAIMED = {
     "C16": (
         "proof",
-        "All 97 obligations generated from the current source of EpochType.is_adaptation/is_warmup, EpochManager.__init__/append/"
+        "All 147 obligations generated from the current source of EpochType.is_adaptation/is_warmup, EpochManager.__init__/append/"
         "has_more/next, EpochConfig.to_state, stan_epochs (loop invariant + variant, unbounded) and the chunk slice of "
         "EngineBuilder.build are discharged by z3 for all inputs; a bounded native enumeration (labelled bounded) backs it and "
         "replays counter-models.",
@@ -20,7 +20,7 @@ CLAIMED = {
     ),
     "C05": (
         "proof",
-        "mh_step is loop-free; its 13 obligations (accept => u < p, p=0 never / p=1 always accepted, NaN ratio <=> code 90 and rejected "
+        "mh_step is loop-free; its 13 obligations (plus 19 on the RW/MH/IWLS kernels: they report exactly what mh_step decided, the user correction reaches it bit for bit) (accept => u < p, p=0 never / p=1 always accepted, NaN ratio <=> code 90 and rejected "
         "with p=0, 0<=p<=1, state identity on reject / update_state(proposal) on accept, moved flag) are discharged by z3's floating-point "
         "theory over the full binary32 domain of the three log-densities and the uniform draw; a native boundary grid incl. the key whose "
         "draw is exactly 0.0 backs it (bounded) and replays counter-models.",
@@ -46,7 +46,7 @@ CLAIMED = {
         "da_init/da_step/da_finalize are proved equal to the Hoffman-Gelman recurrence (coupling invariant error_sum=(t+t0)*Hbar), "
         "monotone in the acceptance probability, and for each of RW, MH, IWLS, HMC, NUTS: start_epoch=da_init, end_epoch=da_finalize, "
         "adaptive transition = standard transition + exactly one da_step with the kernel's own constants and epoch.time_in_epoch, adaptive "
-        "branch iff adaptation epoch, and _standard_transition stores nothing into the kernel state (86 obligations, z3 nonlinear reals).",
+        "branch iff adaptation epoch, and _standard_transition stores nothing into the kernel state (110 obligations incl. constructor wiring and initial states, z3 nonlinear reals).",
         "A-REAL machine floats treated as reals; exp/log monotone uninterpreted, sqrt by its defining axiom, pow uninterpreted; blackjax, "
         "mh_step (proved under C05) and iwls_utils used through contracts.",
         "contract-based deductive verification: own VC generator over the real source (ast -> z3 nonlinear real arithmetic), callee contracts with ghost call recording",
@@ -54,7 +54,7 @@ CLAIMED = {
     ),
     "C07": (
         "proof",
-        "Per-function contracts over the real Engine/KernelSequence/mixin code, 173 obligations discharged by z3 for all epoch configs, "
+        "Per-function contracts over the real Engine/KernelSequence/mixin code, 200 obligations (incl. the whole real Engine / KernelSequence constructors) discharged by z3 for all epoch configs, "
         "durations, chunk sizes and engine states: _start_epoch (end_warmup iff first posterior epoch, flag invariant, chain advance), "
         "_end_warmup (sets the flag), sample_next_epoch (initial epoch: no kernel call; else start / duration transitions / end in order), "
         "_sample_for_duration (loop invariant: i chunks = i*chunk transitions; raises iff chunk does not divide), _sample_many (scan invariant: "
@@ -82,7 +82,7 @@ CLAIMED = {
         "proof",
         "For every listing order of the position keys (all permutations of three keys) the column blocks of the tuning matrix are proved to "
         "follow the flat position's coordinate order (sorted keys = ravel_pytree); _tune_slow of HMC and NUTS feeds only the kernel's own keys, "
-        "picks diag/dense by mm_diag, installs the tuner's result, leaves everything unchanged without history (56 obligations); the regularised "
+        "picks diag/dense by mm_diag, installs the tuner's result, leaves everything unchanged without history (80 obligations incl. the engine's history flag); the regularised "
         "variance/covariance formulas are pinned structurally and numerically by the bounded stand-in (real _tune_slow on random histories incl. "
         "matrix-shaped parameters, compared with var/cov of the ravel_pytree-flattened history).",
         "A-BJX: blackjax flattens the position with ravel_pytree (sorted keys, row-major) - checked natively each run; jnp.var/cov/column_stack "
@@ -92,7 +92,7 @@ CLAIMED = {
     ),
     "C10": (
         "proof",
-        "Proved (35 obligations): integer seed == PRNGKey(seed) (same three keys, three children of one split, other types rejected); "
+        "Proved (44 obligations): integer seed == PRNGKey(seed) (same three keys, three children of one split, other types rejected); "
         "set_initial_values defines its result on both branches (replicated / per-chain states as given); PRNG-key ownership - engine draws "
         "consume the engine key once, install child 0 and hand out children 1..n; scan_f, KernelSequence (C07) and RW/MH/IWLS transitions never "
         "consume a key twice and give proposal and accept draws different children; build() wires update_state(jittered position, supplied "
@@ -104,7 +104,7 @@ CLAIMED = {
     ),
     "C09": (
         "proof",
-        "Proved (34 obligations): KernelSequence.transition runs the kernels in order, each from its predecessor's state; RW, MH, IWLS, HMC, "
+        "Proved (94 obligations): KernelSequence.transition runs the kernels in order, each from its predecessor's state; RW, MH, IWLS, HMC, "
         "NUTS and Gibbs transitions return either the very state they were given or update_state(P, given state) with P holding exactly the "
         "kernel's own position keys (mh_step by its C05 contract, blackjax by A-BJX); LieselInterface/GooseModel.update_state restores the state, "
         "clears all flags, assigns by node/variable name, performs ONE FULL model update and returns the model state, log_prob reads the stored "
@@ -116,7 +116,7 @@ CLAIMED = {
     ),
     "C06": (
         "other",
-        "Proved composition (22 obligations, uninterpreted terms): IWLS draws the proposal from and evaluates the forward term under the same "
+        "Proved composition (29 obligations, uninterpreted terms; the MH correction bit for bit in binary32): IWLS draws the proposal from and evaluates the forward term under the same "
         "(mean, Cholesky/step) pair built at the current state, evaluates the backward term under the same construction at the PROPOSED state "
         "(default Hessian and user chol_info_fn), passes correction = backward - forward and the unravelled proposal to mh_step; RW proposes "
         "x + step*normal and uses the default zero correction; MH forwards the user's position and correction; accept step and proposal use "
@@ -142,7 +142,7 @@ CLAIMED = {
     ),
     "C18": (
         "other",
-        "Proved (39 obligations, z3 nonlinear reals over the real code): AlgebraicSigmoid |forward| < 1, inverse(forward(x)) = x, "
+        "Proved (49 obligations, z3 nonlinear reals over the real code): AlgebraicSigmoid |forward| < 1, inverse(forward(x)) = x, "
         "forward(inverse(y)) = y, ildj(y) = -fldj(inverse(y)); GaussianCopula.__init__ raises for no dependence in (-1,1) with either value "
         "of validate_args and builds scale_tril [[1,0],[rho,sqrt(1-rho^2)]] (LL' = correlation matrix) under NormalCDF; the closed-form copula "
         "density as a lemma over the TFP contracts; from_penalty(var) and from_penalty_smooth(1/var) pass the same rank and "
@@ -161,7 +161,7 @@ CLAIMED = {
         "parameter, user-supplied total nodes, flag combinations) with ALL values, density and calculation functions symbolic: log_prob = sum "
         "over all distribution nodes of the log-density at the current values, log_lik / log_prior the observed / parameter parts, "
         "prob = lik + prior, per-observation vs summed storage give equal totals, user nodes forwarded unchanged - after build and after "
-        "re-assigning every value (73 obligations, z3 linear reals + uninterpreted functions). Bounded: numeric comparison with TFP.",
+        "re-assigning every value (96 obligations, z3 linear reals + uninterpreted functions). Bounded: numeric comparison with TFP.",
         "graph shapes enumerated (not all DAGs); A-REAL sums; x.sum() = sum of entries; A-NX topological sort; A-TFP for the transformed shape.",
         "contract-based deductive verification: symbolic execution of the real builder/model code on enumerated shapes with fully symbolic values (own VC generator, z3)",
         "DESIGN.md §3 C02",
@@ -172,7 +172,7 @@ CLAIMED = {
         "GraphBuilder.transform executed symbolically with TFP stubs obeying the documented laws: new variable strong with value b^-1(v), "
         "original = b(new) (value unchanged), new log-density at t = old log-density at b(t) + fldj_b(t) with the CURRENT bijector parameters "
         "(re-assigned inputs), parameter flag moved (not set), observed/role untouched, per_obs kept, original without distribution; rejection "
-        "cases (78 obligations). Bounded: numeric identity on 6 distributions x entry points incl. parameter-dependent default bijectors.",
+        "cases (93 obligations incl. chains of two transformations). Bounded: numeric identity on 6 distributions x entry points incl. parameter-dependent default bijectors.",
         "A-TFP (Invert, TransformedDistribution.log_prob law, b(b^-1(v)) = v); one graph shape (x ~ D(rate=p)); S4' objects created by a bare expression statement are collected at once.",
         "contract-based deductive verification: symbolic execution of the real transformation code against TFP contracts (own VC generator, z3)",
         "DESIGN.md §3 C14",
@@ -184,7 +184,7 @@ CLAIMED = {
         "calculations, flat), for both auto-update settings and three skip sets, all values / functions / distributions symbolic: every "
         "non-skipped distributed variable becomes draw_D(parameters at the NEWLY drawn ancestor values, sample shape of its current value, its "
         "own child of the seed), skipped variables keep their value, children of the seed are distinct, nothing is outdated after a subsequent "
-        "update (47 obligations). Bounded: numeric runs with tight scales, seed determinism, independence of auto_update.",
+        "update (90 obligations). Bounded: numeric runs with tight scales, seed determinism, independence of auto_update.",
         "graph shapes enumerated; value shapes rank 1 with scalar batch/event shape in the proof (other shapes bounded); T: tfp sample draws from "
         "the initialised distribution (the distributional clause itself is not decided); A-NX; A-RNG.",
         "contract-based deductive verification: symbolic execution of the real simulate code on enumerated shapes with fully symbolic values (own VC generator, z3)",
@@ -232,7 +232,7 @@ CLAIMED = {
     ),
     "C01": (
         "proof",
-        "Three layers, 106 obligations discharged by z3: (1) per-function contracts proved on the real code with symbolic neighbours - "
+        "Three layers, 122 obligations discharged by z3: (1) per-function contracts proved on the real code with symbolic neighbours - "
         "Node/Value.flag_outdated, Value/Var.value setter (flag outputs, full update iff auto-update), Calc/Dist/Transient update and value, "
         "outdated properties, state get/set, Model.update for 0..4 nodes (updated iff outdated [and targeted], in order, at most once), "
         "_recursive_inputs = ancestor closure through all_input_nodes incl. a distribution's evaluation node; (2) for an ARBITRARY DAG "
